@@ -3,10 +3,12 @@ package main
 import (
 	"fmt"
 	"go/ast"
+	"go/token"
 	"go/types"
 	"sort"
 	"strings"
 
+	"golang.org/x/tools/go/cfg"
 	"golang.org/x/tools/go/ssa"
 )
 
@@ -46,6 +48,66 @@ func ruleProposalDominators(c *Ctx) {
 				Alts: [][]string{{"pkg/config#MaxBlockSize", "pkg/config#MaxBlockSystemFee"}}, Extra: []string{"pkg/core#config", symTxSize, "pkg/core/transaction#SystemFee", "pkg/config#MaxTransactionsPerBlock"}}},
 			MustNode: [][]string{{"op:+=", symTxSize}, {"op:+=", "pkg/core/transaction#SystemFee"}}},
 	})
+	// the proposal source: whatever set of pooled transactions getVerifiedTx hands to dBFT went through
+	// ApplyPolicyToTxSet, unless it is empty (every path from a pool read to the return, the empty-set edge of
+	// `len(set) > 0` excepted, passes the policy call)
+	if fd := c.P.Func(cnsPkg, "service", "getVerifiedTx"); fd != nil {
+		f := c.P.NewFuncCFG(fd)
+		const symPolicy = "pkg/consensus.(Ledger).ApplyPolicyToTxSet"
+		pol := blocksOf(f.CallSites(symPolicy))
+		srcs := f.CallSites("pkg/core/mempool.(*Pool).GetVerifiedTransactions", "pkg/core/mempool.(*Pool).TryGetValue")
+		emptyEdge := func(b *cfg.Block) int { // index of the successor taken when the tested set is empty, -1 if b is no emptiness test
+			be, ok := ast.Unparen(f.Cond(b)).(*ast.BinaryExpr)
+			if f.Cond(b) == nil || !ok || !isZeroConst(f.Info, be.Y) {
+				return -1
+			}
+			call, ok := ast.Unparen(be.X).(*ast.CallExpr)
+			if !ok || f.calleeSym(call) != "builtin.len" {
+				return -1
+			}
+			switch be.Op {
+			case token.GTR, token.NEQ:
+				return 1
+			case token.EQL:
+				return 0
+			}
+			return -1
+		}
+		rets := blocksOf(f.Returns())
+		for i, s := range srcs {
+			key := fmt.Sprintf("getVerifiedTx.policy#%d", i+1)
+			seen := map[*cfg.Block]bool{s.blk: true}
+			stack := []*cfg.Block{s.blk}
+			var leak *cfg.Block
+			for len(stack) > 0 && leak == nil {
+				b := stack[len(stack)-1]
+				stack = stack[:len(stack)-1]
+				if b != s.blk && pol[b] {
+					continue
+				}
+				if rets[b] {
+					leak = b
+					break
+				}
+				skip := emptyEdge(b)
+				for j, nx := range b.Succs {
+					if j == skip || seen[nx] {
+						continue
+					}
+					seen[nx] = true
+					stack = append(stack, nx)
+				}
+			}
+			if leak == nil {
+				c.OK(key, c.P.Pos(s.call.Pos()), "transactions taken from the pool reach dBFT only through ApplyPolicyToTxSet (or as an empty set)")
+			} else {
+				c.Fail(key, c.P.Pos(s.call.Pos()), fmt.Sprintf("%s: transactions read from the pool here reach the return at %s without passing ApplyPolicyToTxSet: the proposal may exceed the block limits (size, system fee, count) or contain conflicting transactions, so the other validators reject it", FuncKey(fd.Obj), f.blockPos(leak)))
+			}
+		}
+		c.Floor("pool reads in getVerifiedTx", len(srcs), 3)
+	} else {
+		c.Lost("getVerifiedTx.anchor", "getVerifiedTx not found")
+	}
 	// the witness is assembled walking validators by index, never by ranging over the signature map
 	if fd := c.P.Func(cnsPkg, "service", "getBlockWitness"); fd != nil {
 		bad := false
